@@ -44,9 +44,11 @@ int main(int argc, char **argv) {
     // a fixed, minimal environment (DESIGN 3.3)
     bool nofaults = getenv("VERIF_NOFAULTS") != nullptr;
     bool stress = getenv("VERIF_STRESS") != nullptr;
+    std::string dump_unhit = getenv("VERIF_DUMP_UNHIT") ? getenv("VERIF_DUMP_UNHIT") : "";
     clearenv();
     if (nofaults) setenv("VERIF_NOFAULTS", "1", 1);
     if (stress) setenv("VERIF_STRESS", "1", 1);
+    if (!dump_unhit.empty()) setenv("VERIF_DUMP_UNHIT", dump_unhit.c_str(), 1);
     setenv("TZ", "UTC", 1);
     setenv("VERIF_ENV_A", "alpha", 1);
     setenv("VERIF_ENV_LONG", "the quick brown fox jumps over the lazy dog 0123456789", 1);
